@@ -74,7 +74,8 @@ pub fn trace_hash(tr: &Trace) -> u64 {
 
 pub fn run_case(prop: &str, gen_: GenFn, cs: u64, thorough: bool) -> (Program, Trace, Report) {
     let mut rng = Rng::new(cs);
-    let prog = gen_(&mut rng);
+    let mut prog = gen_(&mut rng);
+    prog.one_default_spawn_per_type();
     run_prog(prop, prog, cs, thorough)
 }
 
